@@ -18,7 +18,7 @@ claim("C13", "model_checking",
       "Same state machine with faults at every position (syntax/semantic/empty/dangling files, directory missing, a file, below a file): TLC checks IsolationOK and the replay compares devices, GetErrors key set (must/may bounds), GetSpecErrors consistency and Refresh()'s error against the model after every refresh, including repairs; the auto-refresh histories are also executed with 'missing' concretised as ENOTDIR (a path below a regular file).",
       SEQ_NOTE + " Unreadable (EACCES) files and directories are replayed by a harness process that has switched to uid 65534 (needs the check to start as root, as in this sandbox; started unprivileged it runs as it is).", "TLA+ spec CacheSeq (fault placements, incl. permission faults) model-checked with TLC; behaviours replayed into the real Cache", "5 C13", "cacheseq")
 claim("C04", "model_checking",
-      "Inject is an action of the CacheSeq state machine; for every request over resolvable/unknown/unqualified/empty/conflict-removed/shadowed names (with repetitions) the replay requires the exact miss list in order, an error, a byte-identical OCI spec, and the nil-spec refusal.",
+      "Inject is an action of the CacheSeq state machine; for every request over resolvable/unknown/unqualified/empty/conflict-removed/shadowed names (with repetitions; requests of 1-2 tokens exhaustively and long ones of 9, 12 and 17 tokens built from every pair) the replay requires the exact miss list in order, an error, a byte-identical OCI spec, and the nil-spec refusal.",
       SEQ_NOTE, "TLA+ spec CacheSeq (Inject action) with TLC; replay into real InjectDevices with deep before/after comparison", "5 C04", "cacheseq")
 claim("C16", "model_checking",
       "WriteSpec/RemoveSpec are actions of the CacheSeq state machine (last directory, created if missing, failure leaves everything unchanged); TLC checks WriteWins; the replay snapshots the whole scratch tree before/after each call and requires exactly one path to change, the content to read back, the devices to resolve there after Refresh and RemoveSpec to delete exactly it.",
@@ -59,15 +59,15 @@ claim("C10", "model_checking",
 AUTO_NOTE = ("Trusted: the model of inotify/fsnotify delivery (from reading fsnotify 1.5.1), the gate hook placement, the 10 s/2 s timing windows, TLC. "
              "Liveness is checked under weak fairness on delivery, handler and queries; on the code, convergence is observed by polling.")
 claim("C11", "model_checking",
-      "CacheAuto is a TLA+ model of directories, kernel inotify queues, the fsnotify reader, the watcher goroutine - whose critical section is two steps (update the watches; rescan) with directory operations in between - and queries; TLC checks convergence (liveness under fairness) over every history of <=4/6 operations of the statement's list at every interleaving. Seeded behaviours and the counter-example schedules the model yields when a repair is switched off are executed on a real auto-refresh cache at three pacings (free; the recorded schedule enforced by blocking gates at watch.prelock, watch.updated and after the rescan; watcher held to the end) and the query API is polled until it equals a fresh cache. Each execution at the first two pacings is recorded through the hooks (file-system operations, receives, handler and operation snapshots of tracked map / directories in error / indexed content) and validated by TLC against CacheAutoTrace: some behaviour of the model must explain every event and snapshot.",
+      "CacheAuto is a TLA+ model of directories, kernel inotify queues, the fsnotify reader, the watcher goroutine - whose critical section is two steps (update the watches; rescan) with directory operations in between - and queries; TLC checks convergence (liveness under fairness) over every history of <=4/6 operations of the statement's list at every interleaving. Seeded behaviours and the counter-example schedules the model yields when a repair is switched off are executed on a real auto-refresh cache at four pacings (free; the recorded schedule enforced by blocking gates at watch.prelock, watch.updated and after the rescan; watcher held to the end; the operations that follow the creation or a Configure performed inside that call, right after its scan) and the query API is polled until it equals a fresh cache. Each execution at the first two pacings is recorded through the hooks (file-system operations, receives, handler and operation snapshots of tracked map / directories in error / indexed content) and validated by TLC against CacheAutoTrace: some behaviour of the model must explain every event and snapshot.",
       AUTO_NOTE, "TLA+ model (CacheAuto) with liveness checked by TLC; behaviours and directed counter-example schedules replayed into a real auto-refresh cache through a scheduler gate; the recorded executions trace-validated against CacheAutoTrace", "5 C11, 4.2", "cacheauto")
 claim("C20", "model_checking",
       "Same model with Configure (new watcher and dirErrors map per configuration, goroutines keeping captured arguments, descriptor shortage): TLC checks ConfigureFresh, Bounded, Settles, WatchesOK and convergence over <=2/3 reconfigurations; behaviours are replayed on a real cache; a separate process performs 200/2000 reconfigurations watching inotify descriptors, kernel watches and goroutines, the reaction to changes in final vs dropped directories, descriptor exhaustion before/between reconfigurations and the default cache. The recorded executions (including every Configure with its snapshot) are validated by TLC against CacheAutoTrace.",
       AUTO_NOTE, "TLA+ model (CacheAuto with Configure) checked by TLC; behaviours replayed; recorded executions trace-validated against CacheAutoTrace; /proc-based resource probes over long reconfiguration sequences", "5 C20", "cacheauto")
 claim("C12", "model_checking",
-      "Lock discipline as a TLA+ model over Go memory locations (read/write sets of prelude and critical section per public operation, watcher goroutine, atomic switcher): TLC checks NoRace, MutualExclusion, SnapshotOK and deadlock freedom over every interleaving of the explored client programs. The same programs run replicated on all cores under the race detector against a real cache whose directory is flipped by rename between two contents; any race report, any result that is neither content, any stall is a violation.",
+      "Lock discipline as a TLA+ model over Go memory locations (read/write sets of prelude and critical section per public operation, watcher goroutine, atomic switcher): TLC checks NoRace, MutualExclusion, SnapshotOK and deadlock freedom over every interleaving of the explored client programs. The same programs run replicated on all cores under the race detector against a real cache whose directory is flipped by rename between two contents; any race report, any result that is neither content, any stall is a violation. In the other direction concurrent executions of Refresh and the query API on three caches (manual; auto-refresh without a watcher, where every call rescans; auto-refresh with a watcher) over a file replaced by rename with contents of increasing version are recorded (calls, returns with the version shown, renames, one total order) and each log is validated by TLC against CacheLin: accepted iff one critical section per call, the renames' effects and the watcher's rescans can be placed so that every returned version is explained (linearizability w.r.t. the sequential cache: a manual query answers from the index exactly, a completed Refresh shows in every later query, versions never go back, no result mixes versions).",
       "Exhaustive for the model; statistical for the code (race detector sound for executions seen). The read/write-set table is a transcription of cache.go.",
-      "TLA+ lock-discipline model (CacheConc) checked by TLC; the explored client programs executed as a -race stress against the real cache", "5 C12", "cacheconc")
+      "TLA+ lock-discipline model (CacheConc) checked by TLC; the explored client programs executed as a -race stress against the real cache; recorded concurrent executions trace-validated (linearizability) by TLC against CacheLin", "5 C12", "cacheconc")
 
 SCHEMA_NOTE = ("Trusted: the draft-07 subset evaluator in spec/Schema.tla and tools/schema2tla.py (stops with exit 2 if the files start using a keyword it does not implement), the JSON mutation generator, TLC. gojsonschema is exercised only on the documents enumerated.")
 claim("C17", "model_checking",
@@ -100,8 +100,8 @@ ENGINES = [
   "kind_free_text": "draft-07 subset evaluator in TLA+ over a module generated from the shipped schema files; documents by JSON mutation; all validator entry points"},
  {"name": "cacheauto", "path": "spec/CacheAuto.tla spec/CacheAutoTrace.tla tools/autotrace.py harness/autoreplay.go harness/overflow.go harness/reconf.go", "serves_properties": ["C11", "C20", "C01"],
   "kind_free_text": "TLA+ model of the auto-refresh cache incl. bounded kernel queues, fsnotify's reader, goroutines with a two-step critical section, Configure, descriptor shortage; replay with scheduler gates; recorded executions trace-validated by TLC; resource probes"},
- {"name": "cacheconc", "path": "spec/CacheConc.tla harness/stress.go", "serves_properties": ["C12"],
-  "kind_free_text": "lock-discipline model + race-detector stress of TLC's client programs"},
+ {"name": "cacheconc", "path": "spec/CacheConc.tla spec/CacheLin.tla harness/stress.go harness/lin.go tools/lintrace.py", "serves_properties": ["C12"],
+  "kind_free_text": "lock-discipline model + race-detector stress of TLC's client programs + linearizability trace validation of recorded concurrent executions"},
  {"name": "specwrite", "path": "spec/SpecWrite.tla spec/FSTrace.tla harness/writer.go tools/strace2ndjson.py", "serves_properties": ["C10"],
   "kind_free_text": "protocol model + generic FS trace spec; real writer observed through hooks, kill -9, RLIMIT_FSIZE and strace"},
  {"name": "specdoc", "path": "spec/SpecDoc.tla spec/SpecDocGen.tla spec/MCSpecDoc.tla harness/specdoc.go", "serves_properties": ["C05", "C06"],
